@@ -79,6 +79,17 @@ MUTANTS = [
  M("c02-clean-not-deferred", "C02", "C02.once", (HGF, "\tprocessedRounds := []int{}\n\tdefer func() {\n\t\th.PendingRounds.Clean(processedRounds)\n\t}()\n", "\tprocessedRounds := []int{}\n"), (HGF, "\t\tif h.LastConsensusRound == nil || r.Index > *h.LastConsensusRound {\n\t\t\th.setLastConsensusRound(r.Index)\n\t\t}\n\t}\n\n\treturn nil\n}\n\n// GetFrame computes", "\t\tif h.LastConsensusRound == nil || r.Index > *h.LastConsensusRound {\n\t\t\th.setLastConsensusRound(r.Index)\n\t\t}\n\t}\n\n\th.PendingRounds.Clean(processedRounds)\n\treturn nil\n}\n\n// GetFrame computes")),
  M("c02-sigpool-rewrites-body", "C02", "C02.frozen", (HGF, "\t\tblock.SetSignature(bs)\n", "\t\tblock.SetSignature(bs)\n\t\tblock.Body.Timestamp = int64(len(block.Signatures))\n")),
  M("c02-no-restore-after-app", "C02", "C02.persist", (CORE, "\t\tif err := c.hg.Store.SetBlock(block); err != nil {\n\t\t\treturn err\n\t\t}\n\n\t\t// Sign the block", "\t\t// Sign the block")),
+ # ---- C05
+ M("c05-len-after-insert", "C05", "C05.trim", (CORE, "\ttxs := len(c.transactionPool)\n", ""), (CORE, "\t// do not remove pool elements that were added by CommitCallback\n", "\t// do not remove pool elements that were added by CommitCallback\n\ttxs := len(newHead.Transactions())\n\tif txs > len(c.transactionPool) {\n\t\ttxs = len(c.transactionPool)\n\t}\n")),
+ M("c05-trim-all", "C05", "C05.trim", (CORE, "c.transactionPool = c.transactionPool[txs:]", "c.transactionPool = [][]byte{}\n\t_ = txs")),
+ M("c05-trim-on-failure", "C05", "C05.trim", (CORE, "\tif err := c.signAndInsertSelfEvent(newHead); err != nil {\n\t\tc.logger.WithError(err).Errorf(\"Error inserting new head\")\n\t\treturn err\n\t}\n", "\tif err := c.signAndInsertSelfEvent(newHead); err != nil {\n\t\tc.logger.WithError(err).Errorf(\"Error inserting new head\")\n\t\tif !hg.IsNormalSelfParentError(err) {\n\t\t\treturn err\n\t\t}\n\t}\n")),
+ M("c05-sigs-remove-all", "C05", "C05.trim", (CORE, "c.selfBlockSignatures.RemoveSlice(sigs)", "c.selfBlockSignatures.RemoveSlice(c.selfBlockSignatures.Slice())")),
+ M("c05-copy-direct", "C05", "C05.copy", ("src/proxy/inmem/inmem_proxy.go", "\tp.submitCh <- t\n", "\tp.submitCh <- tx\n\t_ = t\n")),
+ M("c05-addtx-unlocked", "C05", "C05.lock", (NODEF, "\t\t\tn.logger.Debug(\"Adding Transaction\")\n\t\t\tn.addTransaction(t)", "\t\t\tn.logger.Debug(\"Adding Transaction\")\n\t\t\tn.core.addTransactions([][]byte{t})")),
+ M("c05-leave-unlocked", "C05", "C05.lock", (CORE, "\tlock.Lock()\n\tpromise := c.addInternalTransaction(itx)\n\tlock.Unlock()\n", "\tpromise := c.addInternalTransaction(itx)\n\t_ = lock\n")),
+ M("c05-eager-sync-unlocked", "C05", "C05.lock", (RPC, "\tn.coreLock.Lock()\n\terr := n.sync(cmd.FromID, cmd.Events)\n\tn.coreLock.Unlock()\n", "\terr := n.sync(cmd.FromID, cmd.Events)\n")),
+ M("c05-new-pool-writer", "C05", "C05.writers", (CORE, "func (c *core) busy() bool {\n", "func (c *core) busy() bool {\n\tif len(c.transactionPool) > 10000 {\n\t\tc.transactionPool = c.transactionPool[:10000]\n\t}\n")),
+ M("c05-return-on-commit-error", "C05", "C05.once", (HGF, "\t\t\t\t\th.logger.Warningf(\"Failed to commit block %d\", block.Index())\n", "\t\t\t\t\th.logger.Warningf(\"Failed to commit block %d\", block.Index())\n\t\t\t\t\treturn err\n")),
 ]
 
 BENIGN = [
@@ -96,4 +107,7 @@ BENIGN = [
  B("c02-benign-index-var", "C02", (HGF, "block, err := NewBlockFromFrame(lastBlockIndex+1, frame)", "nextIndex := 1 + lastBlockIndex\n\t\t\tblock, err := NewBlockFromFrame(nextIndex, frame)")),
  B("c02-benign-less-swapped", "C02", ("src/hashgraph/caches.go", "\treturn a[i].Index < a[j].Index", "\treturn a[j].Index > a[i].Index")),
  B("c11-benign-batchsize", "C11", (HGF, "batchSize := 100", "batchSize := 250")),
+
+ B("c05-benign-defer-unlock", "C05", (RPC, "\tn.coreLock.Lock()\n\terr := n.sync(cmd.FromID, cmd.Events)\n\tn.coreLock.Unlock()\n", "\terr := func() error {\n\t\tn.coreLock.Lock()\n\t\tdefer n.coreLock.Unlock()\n\t\treturn n.sync(cmd.FromID, cmd.Events)\n\t}()\n")),
+ B("c05-benign-locals-renamed", "C05", (CORE, "\ttxs := len(c.transactionPool)\n", "\tnTx := len(c.transactionPool)\n"), (CORE, "c.transactionPool = c.transactionPool[txs:]", "c.transactionPool = c.transactionPool[nTx:]")),
 ]
